@@ -155,6 +155,79 @@ def check(prog: Program, rep):
     r3(prog, rep)
     r4(prog, rep)
     r5(prog, rep)
+    r6(prog, rep)
+
+
+# ----------------------------------------------------------------------------------------------- R6
+def r6(prog: Program, rep):
+    """solve() may be called again on an object whose earlier solve() succeeded.  What that run left behind - the raised flag, the
+    cached solution, the solver values read - must not be what the new run is judged by: a model's own solve() drops the cached
+    solution before it runs the solver, and a search over sub-models lowers its flag and drops its solution before the first run."""
+    rep.rule("C13.R6", "re-entrancy of solve(): cached solution (and, for searches, the solved flag) reset before the first solver run", floor=9)
+    n = 0
+    for cls in prog.all_classes():
+        f = cls.methods.get("solve")
+        if f is None or prog.lookup_method(cls, "is_solved") is None:
+            continue
+        body = [st for st in f.node.body if not (isinstance(st, ast.Expr) and isinstance(st.value, ast.Constant))]
+        if all(isinstance(st, ast.Pass) for st in body):
+            continue
+        own_run = any((dotted(c.func) or "") == "self.solver.optimize" for c in calls_in(f.node))
+        # index of the first top-level statement that runs a solver (own run, or sub-model solve / loop over k)
+        first = None
+        for i, st in enumerate(body):
+            runs = any(isinstance(c.func, ast.Attribute) and c.func.attr in ("optimize", "solve") and (dotted(c.func) or "") != "self.solve" for c in calls_in(st))
+            calls_self = any((dotted(c.func) or "").startswith("self._solve") or (dotted(c.func) or "").startswith("self.get_lowerbound") for c in calls_in(st))
+            if runs or calls_self or isinstance(st, (ast.For, ast.While)):
+                first = i
+                break
+        if first is None:
+            raise AnalysisError(f"{cls.name}.solve: no solver run found")
+        pre = body[:first]
+        # statements before the first run that can leave the function (early exits) are fine: nothing is run after them
+        resets = {dotted(t) for st in pre if isinstance(st, ast.Assign) and isinstance(st.value, ast.Constant) and st.value.value in (None, False)
+                  for t in st.targets}
+        has_cache = any(stores_to_self_attr(m.node, "_solution") for c_ in prog.mro(cls) for m in c_.methods.values()) or \
+            any(stores_to_self_attr(m.node, "_solution") for sub in prog.all_classes() if cls in prog.mro(sub) for m in sub.methods.values())
+        n += 1
+        key = f"{cls.name}.solve:re-entrancy"
+        missing = []
+        if has_cache and "self._solution" not in resets:
+            missing.append("self._solution = None")
+        if not own_run and "self._is_solved" not in resets:
+            missing.append("self._is_solved = False")
+        if own_run and "self.edge_vars_sol" not in resets and any(stores_to_self_attr(m.node, "edge_vars_sol") for m in cls.methods.values()):
+            if not any(isinstance(st, ast.Assign) and any(dotted(t) == "self.edge_vars_sol" for t in st.targets) for st in pre):
+                missing.append("self.edge_vars_sol = {}")
+        if not missing:
+            rep.ok("C13.R6", key, f"before the first solver run: {sorted(r for r in resets if r)}", f.loc(body[first]))
+        else:
+            rep.violation("C13.R6", key, f"{cls.name}.solve() reaches its first solver run without {', '.join(missing)}: after a successful solve() a later run of the same "
+                          "object that ends without a solution (time limit) still hands out the earlier solution"
+                          + ("" if own_run else " and still reports solved"), f.loc(body[first]))
+    if n < 9:
+        raise AnalysisError(f"re-entrancy rule: only {n} solve() methods found")
+    # is_solved() before / after an unsuccessful solve() answers False (or the documented 'not yet solved' exception): the flag exists from construction
+    for cls in prog.all_classes():
+        if "solve" not in cls.methods or prog.lookup_method(cls, "is_solved") is None:
+            continue
+        init = cls.methods.get("__init__")
+        if init is None:
+            continue
+        key = f"{cls.name}.__init__:flag-initialised"
+        own = bool(stores_to_self_attr(init.node, "_is_solved"))
+        via_super = False
+        for c in calls_in(init.node):
+            if isinstance(c.func, ast.Attribute) and c.func.attr == "__init__" and isinstance(c.func.value, ast.Call) and dotted(c.func.value.func) == "super":
+                for base in prog.mro(cls)[1:]:
+                    bi = base.methods.get("__init__")
+                    if bi is not None and stores_to_self_attr(bi.node, "_is_solved"):
+                        via_super = True
+        if own or via_super:
+            rep.ok("C13.R6", key, "the solved flag is initialised by the constructor" + (" (base class)" if not own else ""), init.loc())
+        else:
+            rep.violation("C13.R6", key, f"{cls.name}.__init__ neither sets `_is_solved` nor calls a base constructor that does: is_solved() raises AttributeError "
+                          "before solve() and after a search that found no solved model, instead of answering False", init.loc())
 
 
 # ----------------------------------------------------------------------------------------------- R1
